@@ -188,3 +188,29 @@ Proof.
   induction a as [|y r IH]; cbn [app]; intros H Ha Hb; [destruct Ha|]. inversion H; subst.
   destruct Ha as [->|Ha]; [apply H2, in_or_app; right; exact Hb|apply IH; assumption].
 Qed.
+
+(* ------------------------------------------- lookup in appended / filtered lists *)
+Lemma lookup_app n a b :
+  lookup n (a ++ b) = match lookup n a with Some x => Some x | None => lookup n b end.
+Proof.
+  induction a as [|[k x] r IH]; cbn [app lookup]; [reflexivity|].
+  destruct (k =? n); [reflexivity|exact IH].
+Qed.
+Lemma lookup_del_same n bs : lookup n (del_box n bs) = None.
+Proof.
+  unfold del_box. induction bs as [|[k x] r IH]; cbn [filter lookup fst]; [reflexivity|].
+  destruct (k =? n) eqn:E; cbn [negb]; [exact IH|]. cbn [lookup]. rewrite E. exact IH.
+Qed.
+Lemma lookup_del_other n k bs : k <> n -> lookup k (del_box n bs) = lookup k bs.
+Proof.
+  intros Hne. unfold del_box. induction bs as [|[j x] r IH]; cbn [filter lookup fst]; [reflexivity|].
+  destruct (j =? n) eqn:E; cbn [negb].
+  - apply N.eqb_eq in E. subst j. destruct (n =? k) eqn:E2; [apply N.eqb_eq in E2; congruence|exact IH].
+  - cbn [lookup]. destruct (j =? k); [reflexivity|exact IH].
+Qed.
+
+Lemma filter_none {A} (p : A -> bool) l : (forall x, In x l -> p x = false) -> filter p l = [].
+Proof.
+  induction l as [|x r IH]; intros H; cbn [filter]; [reflexivity|].
+  rewrite (H x (or_introl eq_refl)). apply IH. intros y Hy. apply H. right. exact Hy.
+Qed.
